@@ -28,7 +28,7 @@ EDITORS = ["absolute", "shapes_to_paths", "expand_shorthand", "evenodd_to_nonzer
 MUTATORS = ["apply_style_attributes", "resolve_use", "simplify", "clip_to_viewbox",
             "remove_unpainted_shapes", "remove_nonsvg_content", "remove_processing_instructions",
             "remove_anonymous_symbols", "remove_title_meta_desc", "set_attributes",
-            "remove_attributes", "resolve_nested_svgs", "topicosvg"]
+            "remove_attributes", "resolve_nested_svgs", "topicosvg", "set_viewbox", "remove_viewbox"]
 QUERIES = ["shapes", "bounding_box", "tostring", "toetree", "checkpicosvg", "view_box", "tolerance", "xpath"]
 
 
@@ -40,6 +40,11 @@ def call(svg, op, mode):
         return svg.set_attributes((("fill", "lime"), ("data-x", "y")), xpath="//svg:g | //svg:rect", **kw)
     if op == "remove_attributes":
         return svg.remove_attributes(("width", "fill"), xpath="/svg:svg | //svg:g", **kw)
+    if op == "set_viewbox":
+        # what view_box(), tolerance and clip_to_viewbox() answer depends on it
+        return svg.set_attributes((("viewBox", "2 2 9 9"),), xpath="/svg:svg", **kw)
+    if op == "remove_viewbox":
+        return svg.remove_attributes(("viewBox",), xpath="/svg:svg", **kw)
     if op == "xpath":
         return svg.xpath("//svg:path")
     if op == "tolerance":
